@@ -1,12 +1,354 @@
 import IpaVerif.Model.Util
-/-! Line-protocol handlers for property C04 (model side). Import-free. -/
+import IpaVerif.Model.Sharing
+import IpaVerif.Model.Mac
+import IpaVerif.Generated.PrimeFields
+/-! Line-protocol handlers for property C04 (model side) and the spec-side oracle. Import-free. -/
 namespace IpaVerif.Driver.C04
-open IpaVerif.Util
+open IpaVerif.Util IpaVerif.Sharing IpaVerif.Mac
 
-/-- `some response` if the request belongs to this property, else `none`. -/
-def handle (_toks : List String) : Option String := none
+/-- order ℓ of the Ristretto group = modulus of `Fp25519` (external primitive: curve25519-dalek `Scalar`). -/
+def ell : Nat := 2 ^ 252 + 27742317777372353535851937790883648493
 
-/-- Property oracle on (request, implementation response): `some "holds"`, `some "fails <why>"`, or `none`. -/
-def oracle (_toks : List String) (_impl : String) : Option String := none
+def primeOf1 (name : String) : Option Nat :=
+  match IpaVerif.Generated.primeFields.find? (·.name == name) with
+  | some P => some P.p
+  | none => if name == "Fp25519" then some ell else none
+
+/-- `Fp25519x16` = 16-lane vectors of `Fp25519`: (scalar field name, lanes) -/
+def splitField (name : String) : String × Nat :=
+  match name.splitOn "x" with
+  | [f, n] => (f, (n.toNat?).getD 1)
+  | _ => (name, 1)
+
+def primeOf (name : String) : Option Nat := primeOf1 (splitField name).1
+def lanesOf (name : String) : Nat := (splitField name).2
+
+/-- serialized size in bytes of one field element -/
+def sizeOf (name : String) : Nat :=
+  match IpaVerif.Generated.primeFields.find? (·.name == (splitField name).1) with
+  | some P => P.storeBits / 8
+  | none => 32
+
+/-! ### programs -/
+
+inductive POp where
+  | u
+  | m (i j : Nat)
+  | a (i j : Nat)
+  | s (i j : Nat)
+  | n (i : Nat)
+  | k (i c : Nat)
+
+def parseGate (g : String) : Option POp :=
+  let op := g.take 1
+  let args := ((g.drop 1).toString.splitOn ":").mapM String.toNat?
+  match op.toString, args with
+  | "u", _ => if g.length == 1 then some .u else none
+  | "m", some [i, j] => some (.m i j)
+  | "a", some [i, j] => some (.a i j)
+  | "s", some [i, j] => some (.s i j)
+  | "n", some [i] => some (.n i)
+  | "k", some [i, c] => some (.k i c)
+  | _, _ => none
+
+def parseProg (s : String) : Option (List POp) := (s.splitOn ".").mapM parseGate
+
+/-- `[record][input][lane]`; lanes are written `l0+l1+…` -/
+def parseInputs (s : String) : Option (List (List (List Nat))) :=
+  (s.splitOn ",").mapM (fun g => (g.splitOn ":").mapM (fun v => (v.splitOn "+").mapM String.toNat?))
+
+/-- the inputs of lane `l` of one record -/
+def laneInputs (rec : List (List Nat)) (l : Nat) : List Nat := rec.map (fun v => v.getD l 0)
+
+/-- `[wire][lane]` from `[lane][wire]` -/
+def transposeLanes (lanes : Nat) (perLane : List (List Nat)) : List (List Nat) :=
+  let nw := (perLane.headD []).length
+  (List.range nw).map (fun k => (List.range lanes).map (fun l => (perLane.getD l []).getD k 0))
+
+/-- spec side: the plaintext values of all wires of one record, plain arithmetic modulo `p`. -/
+def evalPlain (p : Nat) (prog : List POp) (ins : List Nat) : List Nat :=
+  (prog.foldl (fun (st : List Nat × List Nat) g =>
+    let (ws, ins) := st
+    let w (i : Nat) := ws.getD i 0
+    match g with
+    | .u => (ws ++ [ins.headD 0 % p], ins.tail)
+    | .m i j => (ws ++ [(w i * w j) % p], ins)
+    | .a i j => (ws ++ [(w i + w j) % p], ins)
+    | .s i j => (ws ++ [(w i + p - w j) % p], ins)
+    | .n i => (ws ++ [(p - w i) % p], ins)
+    | .k i c => (ws ++ [(w i * (c % p)) % p], ins)) (([] : List Nat), ins)).1
+
+/-- `[record][wire][lane]` -/
+def showWires (rows : List (List (List Nat))) : String :=
+  String.intercalate "," (rows.map (fun r => String.intercalate ":" (r.map (fun w =>
+    String.intercalate "+" (w.map toString)))))
+
+/-- spec side: all records, all lanes -/
+def evalPlainAll (p lanes : Nat) (prog : List POp) (inputs : List (List (List Nat))) : List (List (List Nat)) :=
+  inputs.map (fun rec => transposeLanes lanes ((List.range lanes).map (fun l => evalPlain p prog (laneInputs rec l))))
+
+/-! ### model side: the share-level model with pseudo-random sharings / masks -/
+
+/-- deterministic pseudo-random field elements (any values work: the theorems hold for all masks). -/
+def prg (seed i card : Nat) : Nat :=
+  ((seed + 1) * 6364136223846793005 + (i + 1) * 1442695040888963407 + seed * i * 2862933555777941757) % card
+
+def shareOf (A : Alg Nat) (card x seed : Nat) : World Nat := share A (x % card) (prg seed 1 card) (prg seed 2 card)
+def masksOf (card seed : Nat) : Masks Nat := ⟨prg seed 3 card, prg seed 4 card, prg seed 5 card⟩
+
+/-- the gates of one record: inputs shared, fresh masks / random constants per gate, no errors. -/
+def gatesOf (A : Alg Nat) (p seed : Nat) (prog : List POp) (ins : List Nat) : List (Gate Nat) :=
+  (prog.foldl (fun (st : List (Gate Nat) × List Nat × Nat) g =>
+    let (gs, ins, k) := st
+    let sd := seed * 131 + 17 * k
+    let α := shareOf A p (prg sd 9 p) (sd + 1)
+    match g with
+    | .u => (gs ++ [.upgrade (shareOf A p (ins.headD 0) (sd + 2)) (masksOf p (sd + 3)) α (noErr A)], ins.tail, k + 1)
+    | .m i j => (gs ++ [.mul i j (masksOf p (sd + 3)) (masksOf p (sd + 4)) α (noErr A) (noErr A)], ins, k + 1)
+    | .a i j => (gs ++ [.add i j], ins, k + 1)
+    | .s i j => (gs ++ [.sub i j], ins, k + 1)
+    | .n i => (gs ++ [.neg i], ins, k + 1)
+    | .k i c => (gs ++ [.mulConst i (c % p)], ins, k + 1)) (([] : List (Gate Nat)), ins, 0)).1
+
+def chunks {α : Type} (n : Nat) (l : List α) : List (List α) :=
+  if n = 0 then [l] else
+  let rec go (fuel : Nat) (l : List α) : List (List α) :=
+    match fuel with
+    | 0 => []
+    | fuel + 1 => if l.isEmpty then [] else l.take n :: go fuel (l.drop n)
+  go (l.length + 1) l
+
+/-- run all records of one batch against one validator state (`r`, accumulators), validate, open every wire on
+every helper.  `some rows` = the opened values (all helpers agree, every opening succeeds, the batch validates
+and every MAC part reconstructs to `r·x`). -/
+def runBatch (A : Alg Nat) (p seed batchIdx : Nat) (prog : List POp) (records : List (List Nat)) :
+    Option (List (List Nat)) :=
+  let bs := seed * 7919 + batchIdx
+  let r := shareOf A p (prg bs 11 p) (bs + 1)
+  let acc0 := initAcc A (masksOf p (bs + 2)) (masksOf p (bs + 3))
+  -- every record contributes its own wires; the accumulators are shared by the batch
+  let (rows, acc) := records.zipIdx.foldl (fun (st : List (List (MShare Nat)) × Acc Nat) (ri : List Nat × Nat) =>
+    let gs := gatesOf A p (bs * 1009 + ri.2) prog ri.1
+    let fin := run A r gs ⟨[], st.2⟩
+    (st.1 ++ [fin.wires], fin.acc)) (([] : List (List (MShare Nat))), acc0)
+  let valid := validateE A r acc (noValErr A) (masksOf p (bs + 4)) (shareOf A p (prg bs 12 p) (bs + 5))
+  let rOpen := reconstruct A r
+  let macOk := rows.all (fun ws => ws.all (fun m =>
+    consistentB m.x && consistentB m.rx && reconstruct A m.rx == A.mul rOpen (reconstruct A m.x)))
+  let opened := rows.map (fun ws => ws.map (fun m => [0, 1, 2].map (fun h => revealHonest A m.x h)))
+  let agree := opened.all (fun ws => ws.all (fun hs => hs.all (fun o => o.isSome && o == hs.headD none)))
+  if valid && macOk && agree then
+    some (opened.map (fun ws => ws.map (fun hs => (hs.headD none).getD 0)))
+  else none
+
+/-- a vectorised record is `lanes` scalar instances sharing the batch's accumulators, each lane with its own random
+coefficient (`accumulateN_T`). -/
+def runHonest (p rpb lanes seed : Nat) (prog : List POp) (inputs : List (List (List Nat))) : String :=
+  let A := modAlg p
+  let bat := (chunks rpb inputs).zipIdx.map (fun b =>
+    let flat := b.1.flatMap (fun rec => (List.range lanes).map (fun l => laneInputs rec l))
+    (runBatch A p seed b.2 prog flat).map (fun rows => (chunks lanes rows).map (transposeLanes lanes)))
+  if bat.all Option.isSome then
+    "ok " ++ showWires (bat.flatMap (fun o => o.getD [])) ++ " mac"
+  else "invalid"
+
+/-! ### channels of a run -/
+
+def leftOf (h : Nat) : Nat := (h + 1) % 3 + 1   -- roles 1..3: left of 1 is 3
+def rightOf (h : Nat) : Nat := h % 3 + 1
+
+def chanList (size lanes rpb count : Nat) (prog : List POp) : String :=
+  let batches := (count + rpb - 1) / rpb
+  let toLeft (g : String) (bytes : Nat) := [1, 2, 3].map (fun h => (g, h, leftOf h, bytes))
+  let toRight (g : String) (bytes : Nat) := [1, 2, 3].map (fun h => (g, h, rightOf h, bytes))
+  let both (g : String) (bytes : Nat) := toLeft g bytes ++ toRight g bytes
+  let perGate := prog.zipIdx.flatMap (fun gi =>
+    let k := toString gi.2
+    (match gi.1 with
+      | .u => toLeft ("malicious_protocol/u" ++ k ++ "/upgrade") (count * size * lanes)
+      | .m _ _ => toLeft ("malicious_protocol/m" ++ k) (count * size * lanes) ++
+                  toLeft ("malicious_protocol/m" ++ k ++ "/duplicate_multiply") (count * size * lanes)
+      | _ => []) ++ both ("malicious_protocol/o" ++ k) (count * size * lanes))
+  let val :=
+    (if IpaVerif.Generated.Mac.propagateToRight then toRight else toLeft) "validate/propagate_u_and_w"
+        (batches * IpaVerif.Generated.Mac.totalSend * size) ++
+    both "validate/reveal_r" (batches * size) ++
+    toLeft "validate/check_zero/multiply_with_r" (batches * size) ++
+    both "validate/check_zero/reveal_r" (batches * size)
+  let all := perGate ++ val
+  let key (c : String × Nat × Nat × Nat) : String := c.1 ++ "|" ++ toString c.2.1 ++ ">" ++ toString c.2.2.1 ++ "|"
+  let lt (a b : String × Nat × Nat × Nat) : Bool :=
+    a.1 < b.1 || (a.1 == b.1 && (a.2.1 < b.2.1 || (a.2.1 == b.2.1 && a.2.2.1 < b.2.2.1)))
+  let sorted := (all.toArray.qsort lt).toList
+  String.intercalate ";" (sorted.map (fun c => key c ++ toString c.2.2.2))
+
+/-! ### accumulators -/
+
+def natPair (s : String) : Option (Nat × Nat) :=
+  match parseNatList s with
+  | some [a, b] => some (a, b)
+  | _ => none
+
+/-- one call of `accumulate_macs` on one helper: the increments of `u` and `w`. -/
+def accOne (A : Alg Nat) (α x m : Nat × Nat) : Nat × Nat :=
+  let hs (v : Nat × Nat) : HShare Nat := ⟨v.1, v.2⟩
+  let wld (v : Nat × Nat) : World Nat := ⟨hs v, hs v, hs v⟩
+  let ms : MShare Nat := ⟨wld x, wld m⟩
+  let z : Loc Nat := ⟨A.zero, A.zero, A.zero⟩
+  let acc := accumulate A (wld α) ms ⟨z, z⟩
+  (acc.u.h1, acc.w.h1)
+
+/-- one call of `accumulate_macs` on one helper for an `N`-lane share: per-lane views `(l, r)`. -/
+def accVec (A : Alg Nat) (αl αr xl xr ml mr : List Nat) : Nat × Nat :=
+  let hs (l r : Nat) : HShare Nat := ⟨l, r⟩
+  let wld (l r : Nat) : World Nat := ⟨hs l r, hs l r, hs l r⟩
+  let lanes := (List.range αl.length).map (fun i =>
+    (wld (αl.getD i 0) (αr.getD i 0),
+      (⟨wld (xl.getD i 0) (xr.getD i 0), wld (ml.getD i 0) (mr.getD i 0)⟩ : MShare Nat)))
+  let z : Loc Nat := ⟨A.zero, A.zero, A.zero⟩
+  let acc := accumulateN A lanes ⟨z, z⟩
+  (acc.u.h1, acc.w.h1)
+
+def plusList (s : String) : Option (List Nat) := (s.splitOn "+").mapM String.toNat?
+
+def specDot (p al ar bl br : Nat) : Nat := ((al + ar) * (bl + br) + (p - (ar * br) % p)) % p
+
+/-! ### reveal -/
+
+def role? (s : String) : Option (Option Nat) := if s == "-" then some none else s.toNat?.map some
+
+/-- predicted per-helper outcome of one `malicious_reveal` with at most one altered copy. -/
+def revealModel (p x seed : Nat) (excluded attacker dest : Option Nat) (delta : Nat) : String :=
+  let A := modAlg p
+  let w := shareOf A p x (seed + 1)
+  let outs := [1, 2, 3].map (fun role =>
+    let h := role - 1
+    if excluded == some role then "none" else
+    -- copies received from the left peer (role h+2 sends its left share to its right) and the right peer
+    let lp := (h + 2) % 3 + 1
+    let rp := (h + 1) % 3 + 1
+    let fromLeft := revealMsgToRight (view w (h + 2))
+    let fromRight := revealMsgToLeft (view w (h + 1))
+    let fl := if attacker == some lp && dest == some role then A.add fromLeft (delta % p) else fromLeft
+    let fr := if attacker == some rp && dest == some role then A.add fromRight (delta % p) else fromRight
+    match revealAt A (view w h) fl fr with
+    | some v => "ok:" ++ toString v
+    | none => "fail")
+  String.intercalate "," outs
+
+/-! ### handlers -/
+
+def handle (toks : List String) : Option String :=
+  match toks with
+  | ["c04.acc1", f, a, x, m] => do
+      let p ← primeOf f
+      let (du, dw) := accOne (modAlg p) (← natPair a) (← natPair x) (← natPair m)
+      pure (toString du ++ " " ++ toString dw)
+  | ["c04.acc3", f, a, x, m] => do
+      let p ← primeOf f
+      let a ← parseNatList a; let x ← parseNatList x; let m ← parseNatList m
+      let g (l : List Nat) (h : Nat) : Nat × Nat := (l.getD h 0, l.getD ((h + 1) % 3) 0)
+      let r := [0, 1, 2].map (fun h => accOne (modAlg p) (g a h) (g x h) (g m h))
+      pure (showNatList (r.map (·.1)) ++ " " ++ showNatList (r.map (·.2)))
+  | ["c04.accg", f, al, ar] => do
+      let p ← primeOf f
+      let al ← al.toNat?; let ar ← ar.toNat?
+      let r := (List.range 31).flatMap (fun bl => (List.range 31).map (fun br =>
+        accOne (modAlg p) (al, ar) (bl, br) (br, bl)))
+      pure (showNatList (r.map (·.1)) ++ " " ++ showNatList (r.map (·.2)))
+  | ["c04.accv", f, al, ar, xl, xr, ml, mr] => do
+      let p ← primeOf f
+      let (du, dw) := accVec (modAlg p) (← plusList al) (← plusList ar) (← plusList xl) (← plusList xr)
+        (← plusList ml) (← plusList mr)
+      pure (toString du ++ " " ++ toString dw)
+  | ["c04.honest", f, rpb, count, seed, prog, inputs] => do
+      let p ← primeOf f
+      let rpb ← rpb.toNat?; let count ← count.toNat?; let seed ← seed.toNat?
+      let prog ← parseProg prog; let inputs ← parseInputs inputs
+      if inputs.length ≠ count ∨ rpb = 0 then none else
+      pure (runHonest p rpb (lanesOf f) seed prog inputs)
+  | ["c04.chan", f, rpb, count, _seed, prog, _inputs] => do
+      let _ ← primeOf f
+      let rpb ← rpb.toNat?; let count ← count.toNat?
+      let prog ← parseProg prog
+      if rpb = 0 then none else pure (chanList (sizeOf f) (lanesOf f) rpb count prog)
+  | "c04.attack" :: _ => some "judge"
+  | ["c04.reveal", f, seed, x, ex, at', dest, delta] => do
+      let p ← primeOf f
+      let seed ← seed.toNat?; let x ← x.toNat?; let delta ← delta.toNat?
+      pure (revealModel p x seed (← role? ex) (← role? at') (← role? dest) delta)
+  | _ => none
+
+/-! ### oracle (spec side, plain arithmetic) -/
+
+def sumMod (p : Nat) (l : List Nat) : Nat := l.foldl (· + ·) 0 % p
+
+def oracle (toks : List String) (impl : String) : Option String :=
+  match toks with
+  | ["c04.acc1", f, a, x, m] => do
+      let p ← primeOf f
+      let (al, ar) ← natPair a; let (xl, xr) ← natPair x; let (ml, mr) ← natPair m
+      let want := toString (specDot p al ar ml mr) ++ " " ++ toString (specDot p al ar xl xr)
+      pure (if impl == want then "holds" else "fails contribution is not (al+ar)(bl+br)-ar*br: expected " ++ want)
+  | ["c04.accg", f, al, ar] => do
+      let p ← primeOf f
+      let al ← al.toNat?; let ar ← ar.toNat?
+      let grid := (List.range 31).flatMap (fun bl => (List.range 31).map (fun br => (bl, br)))
+      let want := showNatList (grid.map (fun b => specDot p al ar b.2 b.1)) ++ " " ++
+        showNatList (grid.map (fun b => specDot p al ar b.1 b.2))
+      pure (if impl == want then "holds" else "fails contribution table differs from (al+ar)(bl+br)-ar*br")
+  | ["c04.acc3", f, a, x, m] => do
+      let p ← primeOf f
+      let a ← parseNatList a; let x ← parseNatList x; let m ← parseNatList m
+      match impl.splitOn " " with
+      | [du, dw] =>
+        let du ← parseNatList du; let dw ← parseNatList dw
+        let okU := sumMod p du == (sumMod p a * sumMod p m) % p
+        let okW := sumMod p dw == (sumMod p a * sumMod p x) % p
+        pure (if okU && okW then "holds" else "fails the three contributions do not add up to (sum a)(sum b)")
+      | _ => pure "fails malformed response"
+  | ["c04.accv", f, al, ar, xl, xr, ml, mr] => do
+      let p ← primeOf f
+      let al ← plusList al; let ar ← plusList ar; let xl ← plusList xl; let xr ← plusList xr
+      let ml ← plusList ml; let mr ← plusList mr
+      -- every lane with ITS OWN coefficient
+      let idx := List.range al.length
+      let du := sumMod p (idx.map (fun i => specDot p (al.getD i 0) (ar.getD i 0) (ml.getD i 0) (mr.getD i 0)))
+      let dw := sumMod p (idx.map (fun i => specDot p (al.getD i 0) (ar.getD i 0) (xl.getD i 0) (xr.getD i 0)))
+      let want := toString du ++ " " ++ toString dw
+      pure (if impl == want then "holds" else "fails vectorised contribution is not the sum over lanes of (al_i+ar_i)(bl_i+br_i)-ar_i*br_i with per-lane coefficients: expected " ++ want)
+  | ["c04.honest", f, _rpb, _count, _seed, prog, inputs] => do
+      let p ← primeOf f
+      let prog ← parseProg prog; let inputs ← parseInputs inputs
+      let want := "ok " ++ showWires (evalPlainAll p (lanesOf f) prog inputs) ++ " mac"
+      pure (if impl == want then "holds" else "fails honest run does not validate with the plaintext values: expected " ++ (want.take 120).toString)
+  | ["c04.attack", f, _rpb, _count, _seed, prog, inputs, _c, _cls, _t, _d, _delta] => do
+      let p ← primeOf f
+      let prog ← parseProg prog; let inputs ← parseInputs inputs
+      if impl.startsWith "abort" || impl == "timeout" || impl.startsWith "panic" then pure "holds abort"
+      else if impl == "untouched" then pure "fails the targeted message was not seen (attack not applied)"
+      else
+        -- every message class is covered by `additive_attack_T` / `reveal_two_copies`: an altered message is
+        -- accepted with probability <= 3/|F| only, and only fields with |F| >= 2^32 - 5 are sampled
+        let want := "ok " ++ showWires (evalPlainAll p (lanesOf f) prog inputs) ++ " -"
+        pure (if impl == want then "fails undetected: the altered message was accepted by every honest helper (opened values unchanged)"
+              else "fails changed: honest helpers opened values different from the true ones without aborting")
+  | ["c04.reveal", f, _seed, x, ex, at', dest, delta] => do
+      let p ← primeOf f
+      let x ← x.toNat?; let delta ← delta.toNat?
+      let ex ← role? ex; let at' ← role? at'; let dest ← role? dest
+      let outs := impl.splitOn ","
+      if outs.length ≠ 3 then pure "fails malformed response" else
+      let bad := [1, 2, 3].filter (fun role =>
+        let o := outs.getD (role - 1) ""
+        if ex == some role then o != "none"
+        else if at'.isSome && dest == some role && delta % p ≠ 0 then
+          -- the two copies differ: no value may be returned
+          o != "fail"
+        else if at' == some role then false   -- the deviating helper's own output is not constrained
+        else o != "ok:" ++ toString (x % p))
+      pure (if bad.isEmpty then "holds" else "fails helper " ++ toString (bad.headD 0) ++
+        " opened a wrong value / did not detect differing copies")
+  | _ => none
 
 end IpaVerif.Driver.C04
